@@ -204,6 +204,9 @@ def build_case(run, item, rng, cap, with_block=False):
         except Exception as e:  # the implementation raised: a violation, reported by the caller
             import traceback
 
+            from .common import reraise_if_harness
+
+            reraise_if_harness(e)
             tb = traceback.extract_tb(e.__traceback__)
             where = ["%s:%d %s" % (os.path.basename(fr.filename), fr.lineno, fr.name) for fr in tb[-4:]]
             obs = {"err": True, "vals": [], "lines": [], "rt_vals": [], "rt_lines": [], "rt_same": True, "rt_quiet": [], "min_lines": [], "min_vals": [], "min_variants_same": True}
